@@ -14,4 +14,5 @@ let find (id : string) : sx -> sx =
   | "C07" -> model_C07
   | "C08" -> model_C08
   | "C10" -> model_C10
+  | "C18" -> model_C18
   | _ -> failwith ("no extracted model for " ^ id)
